@@ -59,7 +59,7 @@ def observe (p : Player) (st : Story) : Json :=
         ("counts", .obj (p.counted.map (fun c => (c, match st.visitCountAtPathString c with
           | .ok n => .num n
           | _ => .num (-999))))),
-        ("errors", jStrs st.state.errors), ("warnings", jStrs st.state.warnings),
+        ("errors", jStrs st.core.errors), ("warnings", jStrs st.state.warnings),
         ("async", .bool st.asyncActive),
         ("path", match st.currentPath with | some (some s) => .str s | _ => .null)]
 
@@ -108,9 +108,10 @@ def exec (p : Player) (op : Json) (readFile : String → Option (List Char)) : J
     else if name == "handler" then p.finish (resOk .null) { st with handler := true }
     else if name == "fallbacks" then p.finish (resOk .null) { st with allowFallbacks := argBool a 1 }
     else if name == "seed" then
-      p.finish (resOk .null) { st with state := { st.state with storySeed := wrapI32 (argInt a 1),
-                                                                previousRandom := wrapI32 (argInt a 2) } }
-    else if name == "getseed" then (resOk (.arr [.num st.state.storySeed, .num st.state.previousRandom]), p)
+      let sd := wrapI32 (argInt a 1)
+      let pr := wrapI32 (argInt a 2)
+      p.finish (resOk .null) (st.mapCore (fun c => { c with storySeed := sd, previousRandom := pr }))
+    else if name == "getseed" then (resOk (.arr [.num st.core.storySeed, .num st.core.previousRandom]), p)
     else if name == "fuel" then
       p.finish (resOk .null) { st with fuel := if argInt a 1 < 0 then none else some (argInt a 1).toNat }
     else if name == "stepclock" then p.finish (resOk .null) { st with stepClock := argBool a 1 }
@@ -197,7 +198,7 @@ def exec (p : Player) (op : Json) (readFile : String → Option (List Char)) : J
     else if name == "unbind" then
       match st.unbindExternal (argStr a 1) with
       | (r, st1) => p.finish (ofOut (fun _ => Json.null) r) st1
-    else if name == "errors" then (resOk (jStrs st.state.errors), p)
+    else if name == "errors" then (resOk (jStrs st.core.errors), p)
     else if name == "warnings" then (resOk (jStrs st.state.warnings), p)
     else if name == "haserror" then (resOk (.bool st.state.hasError), p)
     else if name == "gtags" then (ofOut jStrs (st.tagsAtPath ""), p)
